@@ -119,7 +119,6 @@ pub open spec fn m_escaped() -> Seq<char> { seq![' ', '(', 'e', 's', 'c', 'a', '
 pub open spec fn m_escaped_bs() -> Seq<char> { seq![' ', '\\', '(', 'e', 's', 'c', 'a', 'p', 'e', 'd', '\\', ')'] }
 pub open spec fn m_esc() -> Seq<char> { seq![' ', '(', 'e', 's', 'c', ')'] }
 pub open spec fn m_esc_bs() -> Seq<char> { seq![' ', '\\', '(', 'e', 's', 'c', '\\', ')'] }
-pub open spec fn m_noeol() -> Seq<char> { seq![' ', '(', 'n', 'o', '-', 'e', 'o', 'l', ')'] }
 /// the expression without its ` (escaped)` / ` \(escaped\)` / ` (esc)` / ` \(esc\)` marker (first that applies), if it has one
 pub open spec fn as_escaped(e: Seq<char>) -> Option<Seq<char>> {
     if is_suffix_of(m_escaped(), e) { Some(strip_suffix_of(e, m_escaped())) }
